@@ -312,7 +312,34 @@ def run_iterfault(chk, spec):
 def run_table_assign(chk, spec):
 	ts = spec["table"]
 	t = common.mk_table(ts)
-	names, cols = ts["names"], [list(c) for c in ts["cols"]]
+	names, cols = list(ts["names"]), [list(c) for c in ts["cols"]]
+	pre = spec.get("prerename")
+	if pre:
+		# rename columns first (permutation of existing names via a temporary, a rotation, or through a live view): name-keyed
+		# assignment afterwards must address the column that carries the name NOW
+		if pre[0] == "rename_columns":
+			o0 = call(t.rename_columns, list(pre[1]), list(pre[2]))
+		else:
+			def viewren():
+				views = [t.cols()[names.index(a)] for a in pre[1]]
+				for vw, b in zip(views, pre[2]):
+					vw.name = b
+			o0 = call(viewren)
+		if not o0.ok:
+			chk.skip("table-assign-prerename-refused")
+			return
+		sim = list(names)
+		if pre[0] == "rename_columns":
+			for a, b in zip(pre[1], pre[2]):
+				sim[sim.index(a)] = b
+		else:
+			idxs = [names.index(a) for a in pre[1]]
+			for k, b in zip(idxs, pre[2]):
+				sim[k] = b
+		names = sim
+		if t.column_names() != names:
+			chk.skip("table-assign-prerename-model-disagrees")
+			return
 	n = len(cols[0])
 	before = [snapshot(c) for c in t.cols()]
 	fps = [call(c.fingerprint).value for c in t.cols()]
@@ -487,6 +514,8 @@ def key_forms(rng, n):
 	out.append((("slice", (None, None, None)), n))
 	out.append((("slice", (0, n, 2)), len(range(0, n, 2))))
 	out.append((("slice", (None, None, -1)), n))
+	for sl in ((None, None, -2), (None, None, -3), (n - 1, 0, -2), (n - 1, None, -2), (1, None, 3), (None, None, 3), (-1, -n - 1, -2)):
+		out.append((("slice", sl), len(range(*slice(*sl).indices(n)))))
 	if n:
 		bits = [rng.random() < 0.6 for _ in range(n)]
 		out.append((("mask-list", bits), sum(bits)))
@@ -672,7 +701,16 @@ def run(chk):
 		if vform in ("cols-list", "cols-table") and fault == "shape" and len(value) == len(cidx):
 			# wrong number of rows per column: the per-column model decides (length mismatch), not the shape rule
 			pass
-		chk.case("table_assign", {"table": ts, "rows": rows, "colspec": colspec, "vform": vform, "value": value, "fault": fault}, "table-assign")
+		spec_t = {"table": ts, "rows": rows, "colspec": colspec, "vform": vform, "value": value, "fault": fault}
+		if ncols >= 2 and colspec[0] == "name" and rng.random() < 0.6:
+			a, b = names[0], names[1]
+			spec_t["prerename"] = rng.choice([
+				("rename_columns", [a, b, "tmp_"], ["tmp_", a, b]),          # swap through a temporary: the set of names is unchanged
+				("rename_columns", [a, b], [b, "was_" + b]) if False else ("rename_columns", [b, a], ["zz9", b]),
+				("view", [a, b], [b, a]),                                     # swap through live column views
+				("view", [a], ["renamed9"]),
+			])
+		chk.case("table_assign", spec_t, "table-assign")
 	# ---- rename_columns
 	namesets = [["a", "b", "c"], ["a", "a", "b"], ["x"], ["a", None, "b"], ["a", "b", "c", "d"]]
 	for names in namesets:
